@@ -98,9 +98,18 @@ func (s *intraProxyStreamSender) Run(
 
 	s.sourceStreamServer = sourceStreamServer
 
+	// The peer may have given this stream up before its handler got to run (it cancels the
+	// stream of a receiver it closes and opens a new one for the same shard pair). Registering
+	// a sender for a dead stream would replace the live stream's sender in the table.
+	if err := sourceStreamServer.Context().Err(); err != nil {
+		// the stream handler waits for this signal (normally given when recvAck returns)
+		shutdownChan.Shutdown()
+		return err
+	}
+
 	// register this sender so sendMessages can use it
 	s.shardManager.GetIntraProxyManager().RegisterSender(s.peerNodeName, s.targetShardID, s.sourceShardID, s)
-	defer s.shardManager.GetIntraProxyManager().UnregisterSender(s.peerNodeName, s.targetShardID, s.sourceShardID)
+	defer s.shardManager.GetIntraProxyManager().UnregisterSender(s.peerNodeName, s.targetShardID, s.sourceShardID, s)
 
 	// Send pending watermarks to late-registering shards
 	// When a sender is registered, check if there's an active receiver for the source shard
@@ -496,17 +505,23 @@ func (m *intraProxyManager) RegisterSender(
 	m.streamsMu.Unlock()
 }
 
+// UnregisterSender removes the registration of the given sender. The peer may already have
+// opened a newer stream for the same shard pair whose sender replaced this one in the table:
+// only the sender's own entry is removed, never its successor's.
 func (m *intraProxyManager) UnregisterSender(
 	peerNodeName string,
 	targetShard history.ClusterShardID,
 	sourceShard history.ClusterShardID,
+	sender *intraProxyStreamSender,
 ) {
 	key := peerStreamKey{targetShard: targetShard, sourceShard: sourceShard}
 	m.loggers.Get(logging.ShardRouting).Info("UnregisterSender", tag.NewStringTag("peerNodeName", peerNodeName),
 		tag.NewStringTag("key", fmt.Sprintf("%v", key)))
 	m.streamsMu.Lock()
 	if ps := m.peers[peerNodeName]; ps != nil && ps.senders != nil {
-		delete(ps.senders, key)
+		if current, ok := ps.senders[key]; ok && current == sender {
+			delete(ps.senders, key)
+		}
 	}
 	m.streamsMu.Unlock()
 }
